@@ -2,6 +2,7 @@ package checks
 
 import (
 	"bytes"
+	"sort"
 	"encoding/json"
 	"fmt"
 	"os"
@@ -48,7 +49,7 @@ func init() {
 		},
 		Run:    runC08,
 		Replay: replayC08,
-		Budget: schedBudget(80*time.Second, 25*time.Minute),
+		Budget: schedBudget(110*time.Second, 30*time.Minute),
 	})
 }
 
@@ -400,19 +401,55 @@ func runC08(c *fw.Ctx) {
 	type prog struct {
 		seq []int
 	}
-	frontier := []prog{{}}
+	// two roots ("start from non-initial states too"): the empty directory, and a table that already holds rows in
+	// two families (so that what a delete / clear / re-create leaves behind or resurrects is visible one request earlier)
+	base := []int{0, 2, 3}
+	frontier := []prog{{}, {seq: base}}
 	seen := map[string]bool{}
 	var all []prog
 	for d := 1; d <= depth; d++ {
 		var next []prog
 		for _, p := range frontier {
+			if len(p.seq) >= len(base)+depth-1 && len(p.seq) > depth-1 && fmt.Sprint(p.seq[:len(base)]) == fmt.Sprint(base) && len(p.seq)-len(base) >= depth-1 {
+				continue // the populated root is explored one level less deep
+			}
 			for k := range alpha {
 				ns := append(append([]int(nil), p.seq...), k)
 				m := bt.NewModel()
+				// what a deleted table leaves on disk is state too (its data directory stays until the name is
+				// re-used): two programs are merged only if they also agree on which names were created, written
+				// and deleted before
+				residue := map[string]string{}
+				note := func(o *bt.Op) {
+					switch o.Kind {
+					case "CreateTable":
+						residue[o.Parent+"/tables/"+o.TableID] = "fresh"
+					case "MutateRow", "RMW":
+						if _, ok := m.Tables[o.Table]; ok {
+							residue[o.Table] = "rows"
+						}
+					case "DropRowRange":
+						if _, ok := m.Tables[o.Table]; ok && o.All {
+							residue[o.Table] = "cleared"
+						}
+					}
+				}
+				resKey := func() string {
+					var ks []string
+					for t, v := range residue {
+						if _, live := m.Tables[t]; !live {
+							ks = append(ks, t+"="+v)
+						}
+					}
+					sort.Strings(ks)
+					return strings.Join(ks, ",")
+				}
 				for _, x := range p.seq {
+					note(&alpha[x])
 					m.Apply(&alpha[x], nil, 0)
 				}
-				pre := m.StateString()
+				pre := m.StateString() + "#" + resKey()
+				note(&alpha[k])
 				m.Apply(&alpha[k], nil, 0)
 				// one program per (state before the last request, last request)
 				key := pre + "|" + alpha[k].String()
@@ -421,7 +458,7 @@ func runC08(c *fw.Ctx) {
 				}
 				seen[key] = true
 				all = append(all, prog{ns})
-				skey := m.StateString()
+				skey := m.StateString() + "#" + resKey()
 				if !seen["S"+skey] {
 					seen["S"+skey] = true
 					next = append(next, prog{ns})
